@@ -9,19 +9,19 @@ from . import c04
 
 PROP_ID = "C20"
 LEVEL = "exploration"
-NAMES = ["foo", "bar", "x", "a b", "name", "_priv", "é", "size2", "kids", "Target", "get", "e", "tar", "targets", "_target", "par", "parents", "child", "childre"]
+NAMES = ["foo", "bar", "x", "a b", "name", "_priv", "é", "size2", "kids", "Target", "get", "e", "tar", "targets", "_target", "par", "parents", "child", "childre", "__meta__", "__rev__"]
 assert not any(n in dir(NodeMixin) or n in ("parent", "children", "target") for n in NAMES)
 RULE = (
     "cases = histories over a growing universe: create a plain node (Node/AnyNode with keyword attributes, or a Node subclass whose attribute 'bar' is a property with a setter), create a link (SymlinkNode with "
     "constructor keyword attributes, or a SymlinkNodeMixin subclass) to any existing node - plain node or link, same or other tree -, "
     "structural calls (parent/children assignment, children deletion) on links and targets, attribute writes through links and on targets, "
-    "for attribute names from a pool of 19 (none of them part of the node API; several are substrings or extensions of 'parent', 'children', 'target'). After every step the whole table node x name read through "
+    "for attribute names from a pool of 21 (none of them part of the node API; several are substrings or extensions of 'parent', 'children', 'target'). After every step the whole table node x name read through "
     "getattr is compared with an attribute-store model (value or AttributeError) and the whole forest with the structural model of C02. "
     "Systematic part: all short scripts create-link-chain x write x read. Non-trivial = history with a link to a link, or a write through a "
     "link followed by a structural call on that link or its target. Histories hashed for distinctness."
 )
 ASSUMPTIONS = [
-    "attribute names exclude parent/children/target, dunder names, the bookkeeping names and everything in dir(NodeMixin) (the node's own API is not forwarded data)",
+    "attribute names exclude parent/children/target, the bookkeeping names, names Python itself looks up on instances (__setstate__, __class__, ...) and everything in dir(NodeMixin) (the node's own API is not forwarded data); user-chosen names of the form __x__ are included",
     "every node carries a 'name' (error messages format nodes with repr, and Node.__repr__ reads .name of every path node)",
     "after a refused structural call only the exception class and the link invariant are judged here (whole-forest rollback is C03's business); the structural model is then resynchronised",
 ]
